@@ -365,6 +365,31 @@ def clause_alignment(r, kk, ax, a, C, P, what):
     return "aligned"
 
 
+def clause_utm(r, kk, dst_enc, dst, ll_of, what):
+    """'utm' / 'utm-n' / 'utm-s' resolved to EPSG:dst: a WGS84 UTM zone, in the requested hemisphere, whose area of use
+    overlaps the raster's lon/lat box ``ll_of()``.  -> 'N' / 'S', or None when it is not a UTM zone at all."""
+    north, south = 32601 <= dst <= 32660, 32701 <= dst <= 32760
+    if not (north or south) or pcrs(dst).utm_zone is None:
+        r.fail(f"utm:not-a-utm-zone:{kk}", f"{what}: resolved to EPSG:{dst} which is not a WGS84 UTM zone")
+        return None
+    if dst_enc == "utm-n" and not north:
+        r.fail(f"utm:hemisphere:{kk}", f"{what}: resolved to EPSG:{dst} (southern) for 'utm-n'")
+    if dst_enc == "utm-s" and not south:
+        r.fail(f"utm:hemisphere:{kk}", f"{what}: resolved to EPSG:{dst} (northern) for 'utm-s'")
+    ll = ll_of()
+    w, s_, e_, n_ = area_of_use(dst)
+    if ll is not None:
+        lon_ok = ll[0] <= e_ and w <= ll[2]
+        lat_ok = ll[1] <= n_ and s_ <= ll[3]
+        if not lon_ok:
+            r.fail(f"utm:zone-misses-raster:{kk}",
+                   f"{what}: resolved to EPSG:{dst} (lon {w}..{e_}) but the raster spans lon {ll[0]:.6g}..{ll[2]:.6g}")
+        elif dst_enc == "utm" and not lat_ok:
+            r.fail(f"utm:zone-misses-raster:{kk}",
+                   f"{what}: resolved to EPSG:{dst} (lat {s_}..{n_}) but the raster spans lat {ll[1]:.6g}..{ll[3]:.6g}")
+    return "N" if north else "S"
+
+
 def judge(r, S: Src, loc, dst_enc, req, aenc, tight, tol, g, what):
     """Judge one result; sets r.outcome, r.nontrivial."""
     ny, nx = S.shape
@@ -401,28 +426,12 @@ def judge(r, S: Src, loc, dst_enc, req, aenc, tight, tol, g, what):
             r.fail(f"crs:not-epsg:{kk}", f"{what}: result CRS {g.crs} has no EPSG code")
             r.outcome = "bad-crs"
             return
-        north, south = 32601 <= dst <= 32660, 32701 <= dst <= 32760
-        if not (north or south) or pcrs(dst).utm_zone is None:
-            r.fail(f"utm:not-a-utm-zone:{kk}", f"{what}: resolved to EPSG:{dst} which is not a WGS84 UTM zone")
+        lab = clause_utm(r, kk, dst_enc, dst, lambda: facts(S, dst)["lonlat"], what)
+        if lab is None:
             r.outcome = "utm:not-utm"
             return
-        if dst_enc == "utm-n" and not north:
-            r.fail(f"utm:hemisphere:{kk}", f"{what}: resolved to EPSG:{dst} (southern) for 'utm-n'")
-        if dst_enc == "utm-s" and not south:
-            r.fail(f"utm:hemisphere:{kk}", f"{what}: resolved to EPSG:{dst} (northern) for 'utm-s'")
-        ll = facts(S, dst)["lonlat"]
-        w, s_, e_, n_ = area_of_use(dst)
-        if ll is not None:
-            lon_ok = ll[0] <= e_ and w <= ll[2]
-            lat_ok = ll[1] <= n_ and s_ <= ll[3]
-            if not lon_ok:
-                r.fail(f"utm:zone-misses-raster:{kk}",
-                       f"{what}: resolved to EPSG:{dst} (lon {w}..{e_}) but the raster spans lon {ll[0]:.6g}..{ll[2]:.6g}")
-            elif dst_enc == "utm" and not lat_ok:
-                r.fail(f"utm:zone-misses-raster:{kk}",
-                       f"{what}: resolved to EPSG:{dst} (lat {s_}..{n_}) but the raster spans lat {ll[1]:.6g}..{ll[3]:.6g}")
-            labels.append("N" if north else "S")
-            r.nontrivial = True
+        labels.append(lab)
+        r.nontrivial = True
     own = dst == S.epsg
     dst_u = unit_class(dst)
 
@@ -846,6 +855,158 @@ def gen_geographic(tier):
                              ("deg", "deg2"), reqs, ANCHOR3 if t else ("default", "center"), TIGHT, (0.01,))
 
 
+# ---------------------------------------------------------------------------------------------
+# request histories: the answer to a 'utm*' request must not depend on earlier requests
+# ---------------------------------------------------------------------------------------------
+# boundaries between UTM zones (a meridian, crossed at the given latitude) and between the hemispheres (the equator,
+# crossed at the given longitude)
+HIST_B = (("lon", 6.0, 45.2), ("lon", 12.0, 45.2), ("lon", -72.0, -33.3), ("lon", 150.0, -35.3),
+          ("lat0", 21.0), ("lat0", -69.0),
+          ("lon", 18.0, 60.2), ("lon", 0.0, 51.2), ("lon", -66.0, 10.3), ("lat0", 15.0), ("lat0", 102.0))
+# (distance of the raster's near edge from the boundary, raster size) in degrees
+HIST_DW_Q = ((0.05, 0.1), (0.1, 0.25), (0.45, 0.1))
+HIST_DW_T = HIST_DW_Q + ((0.3, 0.15), (0.05, 0.4), (0.25, 0.5))
+HIST_ORDER = ("-+", "+-", "++")
+HIST_HOW = (("cog", "deg"), ("to_crs", "deg"), ("CRS.utm", "deg"), ("cog", "merc"))
+HIST_KEEP = ("_make_crs", "_make_crs_transform")  # CRS construction / transformer caches: not the utm path
+
+
+def clear_utm_caches():
+    """Empty every memoising wrapper (functools / cachetools: ``cache_clear`` or ``.cache``) found in odc.geo.crs and
+    on its CRS class, except the CRS-construction and transformer caches.  On a tree without such a cache: a no-op."""
+    import odc.geo.crs as M  # pylint: disable=import-outside-toplevel
+
+    n = 0
+    for ns in (vars(M), vars(M.CRS)):
+        for name, obj in list(ns.items()):
+            if name in HIST_KEEP or name.startswith("__"):
+                continue
+            f = getattr(obj, "__func__", obj)
+            cc = getattr(f, "cache_clear", None)
+            if callable(cc):
+                cc()
+                n += 1
+                continue
+            c = getattr(f, "cache", None)
+            if c is not None and callable(f) and not isinstance(f, type):
+                c = c() if callable(c) else c
+                if hasattr(c, "clear"):
+                    c.clear()
+                    n += 1
+    return n
+
+
+def hist_src(kind, bd, d, w, side, relation):
+    """small raster whose lon/lat box lies wholly on one side of the boundary"""
+    if bd[0] == "lon":
+        _, B, lat = bd
+        lo0, lo1 = (B + d, B + d + w) if side > 0 else (B - d - w, B - d)
+        la0, la1 = lat - w / 2, lat + w / 2
+    else:
+        _, lon = bd
+        la0, la1 = (d, d + w) if side > 0 else (-d - w, -d)
+        lo0, lo1 = lon - w / 2, lon + w / 2
+    n = 16
+    S = Src()
+    S.kind, S.orient, S.extent, S.shape = kind, "nu", f"history:{relation}", (n, n)
+    if kind == "deg":
+        S.epsg, S.p = 4326, w / n
+        A = Affine(S.p, 0.0, lo0, 0.0, -S.p, la1)
+    else:  # tile-sized (10 km) metre raster centred in that box
+        S.epsg = kind_epsg(kind, "eu")
+        S.p = EXTENT["tile"][1] / n
+        cx, cy = fresh(4326, S.epsg).transform((lo0 + lo1) / 2, (la0 + la1) / 2)
+        cx, cy = float(round(cx)), float(round(cy))
+        A = Affine(S.p, 0.0, cx - n * S.p / 2, 0.0, -S.p, cy + n * S.p / 2)
+    S.coef = tuple(float(v) for v in tuple(A)[:6])
+    S.key = ("hist", kind, bd, d, w, side)
+    S.gbox = GeoBox(S.shape, Affine(*S.coef), crs_spec(S.epsg))
+    S._memo = {}
+    ll = facts(S, 4326)["lonlat"]
+    if bd[0] == "lon":
+        one_side = (ll[0] > bd[1]) if side > 0 else (ll[2] < bd[1])
+    else:
+        one_side = (ll[1] > 0) if side > 0 else (ll[3] < 0)
+    if not one_side:
+        raise ValueError(f"alphabet error: raster {ll} straddles the boundary {bd}")
+    return S, ll
+
+
+def hist_request(api, S, arg):
+    """-> (result, comparable answer)"""
+    if api == "cog":
+        g = compute_output_geobox(S.gbox, arg)
+    elif api == "to_crs":
+        g = S.gbox.to_crs(arg)
+    else:
+        from odc.geo.crs import CRS, norm_crs  # pylint: disable=import-outside-toplevel
+
+        c = CRS.utm(S.gbox.extent) if arg == "utm" else norm_crs(arg, ctx=S.gbox.extent)
+        return c, ("crs", c.epsg)
+    return g, ("geobox", g.crs.epsg if g.crs is not None else None, tuple(g.shape), tuple(g.affine)[:6])
+
+
+def gen_hist(tier):
+    t = tier == "thorough"
+    nb = len(HIST_B) if t else 6
+    for bi in range(nb):
+        eq = HIST_B[bi][0] == "lat0"
+        if t:
+            args = tuple(itertools.product(UTM_ARGS, UTM_ARGS))
+        elif eq:
+            args = (("utm", "utm"), ("utm-n", "utm"), ("utm", "utm-s"))
+        else:
+            args = (("utm", "utm"), ("utm-n", "utm-s"))
+        yield from itertools.product(HIST_HOW, (bi,), HIST_DW_T if t else HIST_DW_Q, HIST_ORDER, args)
+
+
+def run_hist(case):
+    (api, kind), bi, (d, w), order, (arg1, arg2) = case
+    bd = HIST_B[bi]
+    s1, s2 = {"-+": (-1, 1), "+-": (1, -1), "++": (1, 1)}[order]
+    relation = "same-place" if s1 == s2 else ("other-side-of-equator" if bd[0] == "lat0" else "other-side-of-zone-boundary")
+    S1, ll1 = hist_src(kind, bd, d, w, s1, relation)
+    S2, ll2 = hist_src(kind, bd, d, w, s2, relation)
+    r = R()
+
+    def txt(S, arg):
+        src = f"GeoBox({S.shape}, Affine{S.coef}, {crs_spec(S.epsg)!r})"
+        return {"cog": f"compute_output_geobox({src}, {arg!r})", "to_crs": f"{src}.to_crs({arg!r})",
+                "CRS.utm": f"CRS.utm / norm_crs({arg!r}, ctx={src}.extent)"}[api]
+
+    # reference: the second request issued FIRST, in a state without any utm history
+    clear_utm_caches()
+    _, ref = hist_request(api, S2, arg2)
+    # the history: first request, then the second one
+    clear_utm_caches()
+    g1, _ = hist_request(api, S1, arg1)
+    g2, got = hist_request(api, S2, arg2)
+    labs = []
+    for S, ll, arg, g, pos in ((S1, ll1, arg1, g1, "first"), (S2, ll2, arg2, g2, "second")):
+        what = f"[{pos} of: {txt(S1, arg1)} ; then {txt(S2, arg2)}] {txt(S, arg)}"
+        if api == "CRS.utm":
+            kk = f"{kind}->{arg}:CRS.utm:history:{relation}:{pos}"
+            if g.epsg is None:
+                r.fail(f"utm:not-a-utm-zone:{kk}", f"{what}: {g} has no EPSG code")
+                labs.append("?")
+            else:
+                labs.append(str(clause_utm(r, kk, arg, g.epsg, lambda ll=ll: ll, what)))
+        else:
+            r1 = R()
+            judge(r1, S, "eu", arg, ("res", "auto"), "default", False, 0.01, g, what)
+            r.fails.extend(r1.fails)
+            labs.append(r1.outcome.split(":")[0])
+    if got != ref:
+        r.fail(f"utm:history-dependent:{kind}->{arg2}:{api}:after-{arg1}:{relation}",
+               f"{txt(S2, arg2)} (raster lon {ll2[0]:.4g}..{ll2[2]:.4g}, lat {ll2[1]:.4g}..{ll2[3]:.4g}) gives {ref} when it "
+               f"is the first utm request, but {got} after {txt(S1, arg1)} (raster lon {ll1[0]:.4g}..{ll1[2]:.4g}, "
+               f"lat {ll1[1]:.4g}..{ll1[3]:.4g}) in the same process")
+    agree = tuple(round(v) for v in ll1) == tuple(round(v) for v in ll2)
+    r.outcome = f"history:{relation}:{api}:{arg1},{arg2}:{'/'.join(labs)}:{'boxes-agree-to-1deg' if agree else 'boxes-differ'}"
+    r.nontrivial = True
+    return r
+
+
 NOEPSG_KINDS = ("sinu*", "laea*", "tmerc*", "aea*", "ea")  # four PROJ strings without an EPSG code + EPSG:3035
 
 
@@ -919,6 +1080,10 @@ def slices(tier):
         S("no-epsg", gen_noepsg, run_case,
           "MODIS sinusoidal, custom LAEA / transverse Mercator / Albers PROJ strings (no EPSG code) and EPSG:3035 in all "
           "ordered pairs incl. own CRS, own CRS also as WKT2 text / pyproj.CRS object x request x anchor x tight"),
+        S("utm-history", gen_hist, run_hist,
+          "ordered pairs of 'utm*' requests in one process: small rasters on either side of a UTM zone boundary / of the "
+          "equator (both orders) and a same-place repeat, via compute_output_geobox / to_crs / CRS.utm; each answer "
+          "judged by the utm clauses and compared with the same request issued first"),
         S("entry-points", gen_api, run_case,
           "GeoBox.to_crs, every argument given explicitly, CRS object and integer EPSG as crs="),
         S("xarray", gen_xr, run_xr, "xr_zeros(src).odc.output_geobox(...)"),
@@ -984,6 +1149,10 @@ def main(ctx):
         "custom strings have no registered area of use: sources sit in central Europe / Scandinavia where sinusoidal, "
         "LAEA(50N,12E), TM(12E) and Albers(43N,62N) are regular, and only EPSG:3035's area of use is tested; own CRS = the "
         "same string, its WKT2 text or a pyproj.CRS of it",
+        "utm-history: every case starts by emptying the memoising wrappers found in odc.geo.crs (all but the CRS-construction "
+        "and transformer caches; none exists on the unchanged tree); reference = the second request issued first after "
+        "such a reset; the first request of a pair is itself a fresh-state request; rasters lie wholly inside one zone and "
+        "one hemisphere, so the utm clauses alone already determine the zone",
         "mirrored-sources: axis-aligned GeoBoxes whose columns run east-west and/or rows south-north are source GeoBoxes "
         "like any other (the quantifier's 'north-up and rotated' is read as 'any orientation'); kept in their own slice, "
         "finding keys carry the orientation (mx / su / r180)",
